@@ -1,8 +1,10 @@
 #!/bin/sh
 # run every thorough check once (no evidence written), print verdict lines
+worst=0
 for p in $(/venv/bin/python -c "import json;print(' '.join(c['property_id'] for c in json.load(open('MANIFEST.json'))['checks']))"); do
   t0=$(date +%s)
   out=$(VERIF_SEED=${VERIF_SEED:-0} ./check $p --tier thorough --no-evidence 2>&1); rc=$?
   echo "$p rc=$rc $(( $(date +%s) - t0 ))s $(echo "$out" | grep -E '^(HELD|VIOLATION|INCONCLUSIVE|KNOWN)' | head -3 | cut -c1-400)"
-  [ $rc -ne 0 ] && echo "$out" | grep -A1 -E 'VIOLATION|INCONCLUSIVE' | cut -c1-900
+  if [ $rc -ne 0 ]; then worst=$rc; echo "$out" | grep -A1 -E 'VIOLATION|INCONCLUSIVE' | cut -c1-900; fi
 done
+exit $worst
